@@ -21,6 +21,7 @@ import Chrono.Proofs.TzLookupL
 import Chrono.Proofs.TzLookupM
 import Chrono.Proofs.TzYearlyL
 import Chrono.Proofs.TzGlueL
+import Chrono.Proofs.TzLocalL
 
 namespace Chrono.Props.C05
 open Chrono Chrono.M.Tz Chrono.M.TzL Chrono.Spec.Zone Chrono.Extracted.TzL Chrono.Proofs.TzL
@@ -57,7 +58,7 @@ theorem spec_year_unique (d y y' : Int) (h : IsYearOf d y) (h' : IsYearOf d y') 
 
 /-- `is_leap_year` and `days_since_unix_epoch` agree with the calendar for EVERY integer year -/
 theorem second_calendar_days (y : Int) (m : Nat) (d : Int) (h1 : 1 ≤ m) (h2 : m ≤ 12) :
-    is_leap_year y = leap y ∧ days_since_unix_epoch y m d = dayNum y m d :=
+    M.TzL.is_leap_year y = leap y ∧ M.TzL.days_since_unix_epoch y m d = dayNum y m d :=
   ⟨is_leap_year_eq y, dse_eq y m d h1 h2⟩
 
 /-- `UtcDateTime::from_timespec` inverts the day count: the fields it returns are a calendar date whose
@@ -542,13 +543,52 @@ example (ℓ : Int) : Classifies (yearOff sameOffRule (wallStart sameOffRule 202
 
 /-- `Local.offset_from_utc_datetime` (through `Cache::offset(d, false)`): the offset the zone data
 prescribe for the instant — `offAt`, the function every statement above is about — as long as
-`FixedOffset` can hold it (strictly within ±24 h); otherwise the glue answers `None` (which
-`offset_from_utc_datetime` then unwraps: a panic; only synthetic zones have such offsets) -/
+`FixedOffset` can hold it (strictly within ±24 h); otherwise the glue answers `None`, which
+`offset_from_utc_datetime` then unwraps: a panic.  That was finding F32: such zones were NOT only
+synthetic — `TZ=AAA24` is a plain POSIX value and the readers accepted it.  Since the repair
+(770977e) the readers refuse every zone with such an offset (`Props.C16.accepted_offsets_representable`),
+so for a zone that comes from the readers the `None` branch is unreachable: `cache_offset_ok_accepted`
+below.  This theorem is about ANY zone value, hence keeps the branch. -/
 theorem cache_offset_ok (z : Zone) (t : Int) (hs : Sorted z.transitions) (hl : z.leaps = [])
     (hr : RuleOk z.rule) (h : -36028797018963968 ≤ t ∧ t ≤ 36028797018963968) :
     cache_offset z t false =
       .ok (if -86400 < offAt z t ∧ offAt z t < 86400 then Mapped.single (offAt z t) else Mapped.none) :=
   cache_offset_utc z t hs hl hr h
+
+/-- `cache_offset_ok` for a zone that comes from the TZif reader, the representability hypothesis
+DISCHARGED (F32 repaired): for every instant a `NaiveDateTime` can hold the glue answers
+`Single(offAt z t)`, that offset is strictly within 24 h, and `Local::offset_from_utc_datetime`
+(`local_offset_from_utc_datetime`: the `unwrap` modelled as a panic) returns it.  Remaining
+hypotheses are C05's own scope (no leap-second records, `RuleOk`), not representability. -/
+theorem cache_offset_ok_accepted (bytes : List Nat) (z : Zone) (h : parse bytes = .ok z) (t : Int)
+    (hl : z.leaps = []) (hr : RuleOk z.rule) (ht : NDT_MIN_TS ≤ t ∧ t ≤ NDT_MAX_TS) :
+    cache_offset z t false = .ok (.single (offAt z t))
+      ∧ (-86400 < offAt z t ∧ offAt z t < 86400)
+      ∧ local_offset_from_utc_datetime z t = .ok (offAt z t) := by
+  have hw := Chrono.Proofs.TzValid.parsed_zone_wellformed' bytes z h
+  have ht' := ht
+  simp only [NDT_MIN_TS, NDT_MAX_TS] at ht'
+  have e1 := cache_offset_ok z t hw.2.1 hl hr (by omega)
+  obtain ⟨o, h1, h2, -, -⟩ := Chrono.Proofs.TzLocal.local_offset_ok z
+    (Chrono.Proofs.TzLocal.parsed_instantSafe bytes z h) (Chrono.Proofs.TzLocal.parsed_within bytes z h) t ht
+  rw [e1] at h2
+  by_cases c : -86400 < offAt z t ∧ offAt z t < 86400
+  · rw [if_pos c] at h2
+    have e : offAt z t = o := by
+      injection h2 with h2
+      injection h2
+    rw [e1, if_pos c]
+    exact ⟨rfl, c, by rw [e]; exact h1⟩
+  · rw [if_neg c] at h2
+    injection h2 with h2
+    cases h2
+
+/-- the wall-clock direction for a zone from the readers: every candidate offset fits `FixedOffset`
+(the hypothesis `ho` of `cache_local_ok` / `from_local_datetime_contract`), so the glue never drops a
+candidate (`cache_local_drops` is unreachable) -/
+theorem cache_local_candidates_fit (bytes : List Nat) (z : Zone) (h : parse bytes = .ok z)
+    (x : Ltt) (hx : x ∈ Chrono.Proofs.TzLocal.zoneTypes z) : -86400 < x.off ∧ x.off < 86400 :=
+  Chrono.Proofs.TzLocal.parsed_within bytes z h x hx
 
 /-- `Local.offset_from_local_datetime` (through `Cache::offset(d, true)`): whenever the zone lookup
 classifies the reading (the conclusion of `from_local_classifies`, `…_composed`, `…_fixed_rule`,
@@ -632,7 +672,7 @@ example : cache_offset exZoneUS 1730597400 true = .ok (.ambiguous (-14400) (-180
     (Mapped.ambiguous (1730611800, -14400) (1730615400, (-18000 : Int))).earliest = some (1730611800, -14400) ∧
     cache_offset exZoneUS 1720000000 false = .ok (.single (-14400)) := by decide
 
--- an offset `FixedOffset` cannot hold (synthetic zones only): the glue answers `None`
+-- an offset `FixedOffset` cannot hold (a zone VALUE the readers no longer produce, F32): the glue answers `None`
 example : cache_offset ⟨[], [⟨86400, false, none⟩], [], none⟩ 0 true = .ok .none ∧
     cache_offset ⟨[], [⟨86400, false, none⟩], [], none⟩ 0 false = .ok .none := by decide
 
